@@ -162,6 +162,7 @@ func (in *instance) close() {
 type nodeSpec struct {
 	Id    string   `json:"id"`
 	Types []string `json:"types"`
+	Addrs []string `json:"addrs,omitempty"`
 }
 
 type confSpec struct {
@@ -172,7 +173,10 @@ type confSpec struct {
 func (c confSpec) real() nodeconf.Configuration {
 	rc := nodeconf.Configuration{Id: c.Id, NetworkId: "verifnet"}
 	for _, n := range c.Nodes {
-		rn := nodeconf.Node{PeerId: n.Id, Addresses: []string{"127.0.0.1:1"}}
+		rn := nodeconf.Node{PeerId: n.Id, Addresses: append([]string{}, n.Addrs...)}
+		if len(rn.Addresses) == 0 {
+			rn.Addresses = []string{"127.0.0.1:1"}
+		}
 		for _, t := range n.Types {
 			rn.Types = append(rn.Types, nodeconf.NodeType(t))
 		}
@@ -195,19 +199,71 @@ func (c confSpec) withType(t string) []string {
 	return res
 }
 
-// trace form: node id -> relevant types
-func (c confSpec) traceForm() map[string][]string {
-	m := map[string][]string{}
+// trace form: node id -> {t: relevant types, a: addresses}
+func (c confSpec) traceForm() map[string]any {
+	m := map[string]any{}
 	for _, n := range c.Nodes {
 		ts := []string{}
 		for _, t := range n.Types {
-			if t == "tree" || t == "fileV2" {
+			switch t {
+			case "tree", "fileV2":
 				ts = append(ts, t)
+			case "coordinator":
+				ts = append(ts, "coord")
 			}
 		}
-		m[n.Id] = ts
+		as := append([]string{}, n.Addrs...)
+		if len(as) == 0 {
+			as = []string{"127.0.0.1:1"}
+		}
+		m[n.Id] = map[string]any{"t": ts, "a": as}
 	}
 	return m
+}
+
+func (n nodeSpec) has(t string) bool {
+	for _, x := range n.Types {
+		if x == t {
+			return true
+		}
+	}
+	return false
+}
+
+// mergeModel: what service.Init does to a stored configuration (mergeCoordinatorAddrs): coordinators of the
+// application configuration are merged in; a changed result gets the private id "-1"
+func mergeModel(app, stored confSpec) (confSpec, bool) {
+	m := confSpec{Id: stored.Id}
+	for _, n := range stored.Nodes {
+		m.Nodes = append(m.Nodes, nodeSpec{Id: n.Id, Types: append([]string{}, n.Types...), Addrs: append([]string{}, n.Addrs...)})
+	}
+	changed := false
+	for _, an := range app.Nodes {
+		if !an.has("coordinator") {
+			continue
+		}
+		found := false
+		for i := range m.Nodes {
+			if m.Nodes[i].Id == an.Id && m.Nodes[i].has("coordinator") {
+				found = true
+				have := setOf(m.Nodes[i].Addrs)
+				for _, a := range an.Addrs {
+					if !have[a] {
+						m.Nodes[i].Addrs = append(m.Nodes[i].Addrs, a)
+						changed = true
+					}
+				}
+			}
+		}
+		if !found {
+			m.Nodes = append(m.Nodes, an)
+			changed = true
+		}
+	}
+	if changed {
+		m.Id = "-1"
+	}
+	return m, changed
 }
 
 // variant: same sync / fileV2 sets, other list order, other configuration id, padded with nodes of
@@ -652,152 +708,185 @@ func TestDynamic(t *testing.T) {
 	w := traceWriter(t)
 	defer w.Close()
 	for sc := 0; sc < vfutil.EnvInt("VERIF_DYN", 6); sc++ {
-		c1 := dynConf(rnd, fmt.Sprintf("d%da", sc), nil)
-		c2 := dynConf(rnd, fmt.Sprintf("d%db", sc), &c1)
-		runDynamic(t, rep, w, rnd, c1, c2, sc == 0)
+		c1, c2, class := dynPair(rnd, sc)
+		rep.AddExtra("dynamic_"+class, 1)
+		runDynamic(t, rep, w, rnd, c1, c2, sc < 2)
 	}
 	rep.SetExtra("trace_events", w.Len())
 }
 
 func runDynamic(t *testing.T, rep *vfutil.Report, w *vfutil.TraceWriter, rnd *rand.Rand, c1, c2 confSpec, sample bool) {
-	{
-		confs := map[string]confSpec{c1.Id: c1, c2.Id: c2}
-		participants := map[string]bool{client: true}
-		for _, c := range confs {
-			for _, n := range c.Nodes {
-				participants[n.Id] = true
-			}
+	confs := map[string]confSpec{c1.Id: c1, c2.Id: c2}
+	participants := map[string]bool{client: true}
+	for _, c := range confs {
+		for _, n := range c.Nodes {
+			participants[n.Id] = true
 		}
-		var ps []string
-		for p := range participants {
-			ps = append(ps, p)
-		}
-		sort.Strings(ps)
-		w.Emit(map[string]any{"ev": "Net", "kind": "dynamic", "c1": c1.Id, "c2": c2.Id, "confs": map[string]any{c1.Id: c1.traceForm(), c2.Id: c2.traceForm()}})
-		groups := genIdGroups(rnd, 6)
-		insts := map[string]*instance{}
-		replay := map[string]any{"dynamic": true, "c1": c1, "c2": c2}
-		askAll := func(stage string) {
-			for _, g := range groups {
-				byConf := map[string]*answer{}
-				for _, id := range g.Ids {
-					rep.Case(fmt.Sprintf("dyn/%s/dots%d", stage, strings.Count(id, ".")))
-					for _, p := range ps {
-						in := insts[p]
-						a := ask(in, id)
-						rep.AddSteps(1)
-						c, ok := confs[a.Cid]
-						if !ok {
-							rep.Violate("dyn-unknown-configuration/"+stage, fmt.Sprintf("%s reports configuration %q", p, a.Cid), replay)
-							continue
-						}
-						if k, d := checkAnswer(a, c); k != "" {
-							rep.Violate(k, d+fmt.Sprintf(" (dynamic scenario, stage %s)", stage), replay)
-						}
-						if f := byConf[a.Cid]; f == nil {
-							aa := a
-							byConf[a.Cid] = &aa
-						} else if k, d := checkPair(*f, a, "dyn-"+stage); k != "" {
-							rep.Violate(k, d, replay)
-						}
-						w.Emit(map[string]any{"ev": "Query", "p": a.P, "space": splitId(id), "cid": a.Cid, "part": a.Part,
-							"members": a.Members, "nodeIds": a.NodeIds, "resp": a.Resp, "fileV2Ids": a.FileV2Ids,
-							"nm": len(a.Members), "nn": len(a.NodeIds), "nf": len(a.FileV2Ids)})
-					}
-				}
-			}
-		}
-		expect := map[string]string{}
-		checkHeld := func(stage string) {
-			for _, p := range ps {
-				if got := insts[p].svc.Id(); got != expect[p] {
-					rep.Violate("dyn-holds-wrong-configuration/"+stage, fmt.Sprintf("%s holds configuration %s after %s, the last one it was given is %s", p, got, stage, expect[p]), replay)
-				}
-			}
-		}
-		for _, p := range ps {
-			in, err := startInstance(p, c1.real(), nil, nil)
-			if err != nil {
-				t.Fatal(err)
-			}
-			insts[p] = in
-			expect[p] = c1.Id
-			w.Emit(map[string]any{"ev": "Boot", "p": p, "app": c1.Id})
-		}
-		checkHeld("boot")
-		askAll("boot")
-		// update a subset: restart them with a source that has c2 queued behind a gate
-		var upd []string
-		for _, p := range ps {
-			if rnd.Intn(2) == 0 {
-				upd = append(upd, p)
-			}
-		}
-		if len(upd) == 0 {
-			upd = append(upd, ps[rnd.Intn(len(ps))])
-		}
-		for _, p := range upd {
-			old := insts[p]
-			old.close()
-			w.Emit(map[string]any{"ev": "Restart", "p": p})
-			rc2 := c2.real()
-			src := &stubSource{next: &rc2, gate: make(chan struct{})}
-			in, err := startInstance(p, c1.real(), old.store, src)
-			if err != nil {
-				t.Fatal(err)
-			}
-			insts[p] = in
-			w.Emit(map[string]any{"ev": "Boot", "p": p, "app": c1.Id})
-		}
-		checkHeld("reboot")
-		askAll("reboot") // updates still held at the gate: everybody answers from c1
-		for _, p := range upd {
-			close(insts[p].source.gate)
-			waitChange(t, rep, insts[p], c2.Id, replay)
-			expect[p] = c2.Id
-			w.Emit(map[string]any{"ev": "Update", "p": p, "cid": c2.Id})
-		}
-		checkHeld("update")
-		askAll("update")
-		// restart one updated participant: application configuration is still c1, the store has c2
-		p := upd[rnd.Intn(len(upd))]
-		old := insts[p]
-		old.close()
-		w.Emit(map[string]any{"ev": "Restart", "p": p})
-		in, err := startInstance(p, c1.real(), old.store, nil)
+	}
+	var ps []string
+	for p := range participants {
+		ps = append(ps, p)
+	}
+	sort.Strings(ps)
+	w.Emit(map[string]any{"ev": "Net", "kind": "dynamic", "c1": c1.Id, "c2": c2.Id, "confs": map[string]any{c1.Id: c1.traceForm(), c2.Id: c2.traceForm()}})
+	groups := genIdGroups(rnd, 6)
+	insts := map[string]*instance{}
+	held := map[*instance]confSpec{} // the configuration (content) each instance is expected to hold
+	replay := map[string]any{"dynamic": true, "c1": c1, "c2": c2}
+	start := func(p string, app confSpec, store *stubStore, src *stubSource) *instance {
+		in, err := startInstance(p, app.real(), store, src)
 		if err != nil {
 			t.Fatal(err)
 		}
-		insts[p] = in
-		w.Emit(map[string]any{"ev": "Boot", "p": p, "app": c1.Id})
-		checkHeld("restart")
-		askAll("restart")
-		for _, in := range insts {
-			in.close()
-		}
-		rep.AddReplayed(1)
-		if sample {
-			rep.Sample(map[string]any{"dynamic_scenario": map[string]any{"c1": c1, "c2": c2, "updated": upd, "restarted": p}})
-		}
+		return in
 	}
-}
-
-// configurations for the dynamic scenarios: no coordinator type (Dev_MergeCoordinators is not modelled)
-func dynConf(rnd *rand.Rand, id string, base *confSpec) confSpec {
-	c := confSpec{Id: id}
-	if base != nil {
-		// derived from base: some nodes dropped, some retyped, some added
-		for _, n := range base.Nodes {
-			switch rnd.Intn(4) {
-			case 0: // dropped
-			case 1:
-				c.Nodes = append(c.Nodes, nodeSpec{Id: n.Id, Types: []string{[]string{"tree", "fileV2", "file"}[rnd.Intn(3)]}})
-			default:
-				c.Nodes = append(c.Nodes, n)
+	// every instance asked must agree with every other one whose configuration has the same sync-node and
+	// fileV2-node SETS, whatever its history (fresh start, live update, restart from store, coordinator merge)
+	askAll := func(stage string, list []*instance) {
+		for _, g := range groups {
+			bySets := map[string]*answer{}
+			for _, id := range g.Ids {
+				rep.Case(fmt.Sprintf("dyn/%s/dots%d", stage, strings.Count(id, ".")))
+				for _, in := range list {
+					a := ask(in, id)
+					rep.AddSteps(1)
+					c := held[in]
+					if a.Cid != c.Id {
+						rep.Violate("dyn-holds-wrong-configuration/"+stage, fmt.Sprintf("%s answers from configuration %q after %s, it should hold %q", in.p, a.Cid, stage, c.Id), replay)
+						if cc, ok := confs[a.Cid]; ok {
+							c = cc
+						}
+					}
+					if k, d := checkAnswer(a, c); k != "" {
+						rep.Violate(k, d+fmt.Sprintf(" (dynamic scenario, stage %s, configuration %s)", stage, c.Id), replay)
+					}
+					key := strings.Join(c.withType("tree"), ",") + "|" + strings.Join(c.withType("fileV2"), ",")
+					if f := bySets[key]; f == nil {
+						aa := a
+						bySets[key] = &aa
+					} else if k, d := checkPair(*f, a, "dyn-"+stage); k != "" {
+						rep.Violate(k, d+fmt.Sprintf(" (configurations %s / %s with the same sync-node set)", f.Cid, a.Cid), replay)
+					}
+					w.Emit(map[string]any{"ev": "Query", "p": a.P, "space": splitId(id), "cid": a.Cid, "part": a.Part,
+						"members": a.Members, "nodeIds": a.NodeIds, "resp": a.Resp, "fileV2Ids": a.FileV2Ids,
+						"nm": len(a.Members), "nn": len(a.NodeIds), "nf": len(a.FileV2Ids)})
+				}
 			}
 		}
 	}
-	for k := rnd.Intn(5) + 1; k > 0; k-- {
+	all := func() []*instance {
+		var l []*instance
+		for _, p := range ps {
+			l = append(l, insts[p])
+		}
+		return l
+	}
+	// 1. everybody boots on the application configuration c1
+	for _, p := range ps {
+		insts[p] = start(p, c1, nil, nil)
+		held[insts[p]] = c1
+		w.Emit(map[string]any{"ev": "Boot", "p": p, "app": c1.Id})
+	}
+	askAll("boot", all())
+	// 2. a subset restarts with a source that has c2 queued behind a gate: still on c1
+	var upd []string
+	isUpd := map[string]bool{}
+	for _, p := range ps {
+		if rnd.Intn(2) == 0 {
+			upd = append(upd, p)
+		}
+	}
+	if len(upd) == 0 {
+		upd = append(upd, ps[rnd.Intn(len(ps))])
+	}
+	for _, p := range upd {
+		isUpd[p] = true
+		old := insts[p]
+		old.close()
+		w.Emit(map[string]any{"ev": "Restart", "p": p})
+		rc2 := c2.real()
+		insts[p] = start(p, c1, old.store, &stubSource{next: &rc2, gate: make(chan struct{})})
+		held[insts[p]] = c1
+		w.Emit(map[string]any{"ev": "Boot", "p": p, "app": c1.Id})
+	}
+	askAll("reboot", all())
+	// 3. the live update
+	for _, p := range upd {
+		close(insts[p].source.gate)
+		waitChange(t, rep, insts[p], c2.Id, replay)
+		held[insts[p]] = c2
+		w.Emit(map[string]any{"ev": "Update", "p": p, "cid": c2.Id})
+	}
+	askAll("update", all())
+	// 4. agreement across histories: witnesses started directly on c2 (in the trace: the same participants
+	//    restarted with c2 as application configuration) must answer like the participants that were updated
+	var witnesses []*instance
+	for _, p := range ps {
+		wi := start(p, c2, nil, nil)
+		held[wi] = c2
+		witnesses = append(witnesses, wi)
+		w.Emit(map[string]any{"ev": "Restart", "p": p})
+		w.Emit(map[string]any{"ev": "Boot", "p": p, "app": c2.Id})
+	}
+	var updated []*instance
+	for _, p := range upd {
+		updated = append(updated, insts[p])
+	}
+	askAll("fresh-vs-updated", append(append([]*instance{}, witnesses...), updated...))
+	for _, wi := range witnesses {
+		wi.close()
+	}
+	for _, p := range ps { // (trace only) the participants that were not updated are still running on c1
+		if !isUpd[p] {
+			w.Emit(map[string]any{"ev": "Restart", "p": p})
+			w.Emit(map[string]any{"ev": "Boot", "p": p, "app": c1.Id})
+		}
+	}
+	// 5. the updated participants restart: application configuration still c1, the store has c2.  Init merges the
+	//    coordinators of c1 into the stored c2; if that changes it the participant holds the private configuration "-1"
+	merged := 0
+	for _, p := range upd {
+		old := insts[p]
+		old.close()
+		w.Emit(map[string]any{"ev": "Restart", "p": p})
+		insts[p] = start(p, c1, old.store, nil)
+		m, changed := mergeModel(c1, c2)
+		held[insts[p]] = m
+		if changed {
+			merged++
+		}
+		w.Emit(map[string]any{"ev": "Boot", "p": p, "app": c1.Id})
+	}
+	askAll("restart", all())
+	// 6. ... and once more (the store now holds the merged configuration: nothing changes)
+	p := upd[rnd.Intn(len(upd))]
+	old := insts[p]
+	old.close()
+	w.Emit(map[string]any{"ev": "Restart", "p": p})
+	insts[p] = start(p, c1, old.store, nil)
+	held[insts[p]] = held[old]
+	w.Emit(map[string]any{"ev": "Boot", "p": p, "app": c1.Id})
+	askAll("restart2", all())
+	for _, in := range insts {
+		in.close()
+	}
+	rep.AddReplayed(1)
+	rep.AddExtra("dynamic_merged_boots", merged)
+	if sample {
+		rep.Sample(map[string]any{"dynamic_scenario": map[string]any{"c1": c1, "c2": c2, "updated": upd, "merged_boots": merged}})
+	}
+}
+
+// dynPair generates the application configuration c1 and a second published configuration c2 of one of the
+// classes: role swap (same nodes, same number of sync nodes, types permuted), coordinator lacks an address,
+// coordinator missing, arbitrary change (nodes dropped / retyped / added), only irrelevant changes.
+// (A coordinator stays a coordinator: Dev_DuplicatePeer.)
+func dynPair(rnd *rand.Rand, sc int) (c1, c2 confSpec, class string) {
+	class = []string{"role-swap", "coordinator-address", "coordinator-missing", "arbitrary", "irrelevant"}[sc%5]
+	id := func(k int) string { return fmt.Sprintf("12D3KooW%sd%dn%d", randCid(rnd)[7:24], sc, k) }
+	c1 = confSpec{Id: fmt.Sprintf("d%da", sc)}
+	n := rnd.Intn(5) + 2
+	for k := 0; k < n; k++ {
 		ts := []string{}
 		if rnd.Intn(4) > 0 {
 			ts = append(ts, "tree")
@@ -808,10 +897,89 @@ func dynConf(rnd *rand.Rand, id string, base *confSpec) confSpec {
 		if rnd.Intn(3) == 0 {
 			ts = append(ts, "consensus")
 		}
-		c.Nodes = append(c.Nodes, nodeSpec{Id: fmt.Sprintf("12D3KooW%s%s%d", randCid(rnd)[7:24], id, k), Types: ts})
+		nid := id(k)
+		c1.Nodes = append(c1.Nodes, nodeSpec{Id: nid, Types: ts, Addrs: []string{nid + ":443"}})
 	}
-	rnd.Shuffle(len(c.Nodes), func(i, j int) { c.Nodes[i], c.Nodes[j] = c.Nodes[j], c.Nodes[i] })
-	return c
+	// a coordinator (sometimes also a sync node) with two addresses
+	if class == "coordinator-address" || class == "coordinator-missing" || rnd.Intn(2) == 0 {
+		ts := []string{"coordinator"}
+		if rnd.Intn(2) == 0 {
+			ts = append(ts, "tree")
+		}
+		nid := id(n)
+		c1.Nodes = append(c1.Nodes, nodeSpec{Id: nid, Types: ts, Addrs: []string{nid + ":443", nid + ":4430"}})
+	}
+	if class == "role-swap" { // needs a sync node and a node that is not one
+		c1.Nodes[0].Types = []string{"tree"}
+		c1.Nodes[1].Types = []string{"file"}
+	}
+	rnd.Shuffle(len(c1.Nodes), func(i, j int) { c1.Nodes[i], c1.Nodes[j] = c1.Nodes[j], c1.Nodes[i] })
+	c2 = confSpec{Id: fmt.Sprintf("d%db", sc)}
+	clone := func(x nodeSpec) nodeSpec {
+		return nodeSpec{Id: x.Id, Types: append([]string{}, x.Types...), Addrs: append([]string{}, x.Addrs...)}
+	}
+	for _, x := range c1.Nodes {
+		c2.Nodes = append(c2.Nodes, clone(x))
+	}
+	switch class {
+	case "role-swap":
+		var trees, others []int
+		for i, x := range c2.Nodes {
+			if x.has("coordinator") {
+				continue
+			}
+			if x.has("tree") {
+				trees = append(trees, i)
+			} else {
+				others = append(others, i)
+			}
+		}
+		i, j := trees[rnd.Intn(len(trees))], others[rnd.Intn(len(others))]
+		c2.Nodes[i].Types, c2.Nodes[j].Types = c2.Nodes[j].Types, c2.Nodes[i].Types
+	case "coordinator-address":
+		for i := range c2.Nodes {
+			if c2.Nodes[i].has("coordinator") {
+				c2.Nodes[i].Addrs = c2.Nodes[i].Addrs[:1]
+			}
+		}
+	case "coordinator-missing":
+		var kept []nodeSpec
+		for _, x := range c2.Nodes {
+			if !x.has("coordinator") {
+				kept = append(kept, x)
+			}
+		}
+		c2.Nodes = kept
+	case "arbitrary":
+		var res []nodeSpec
+		for _, x := range c2.Nodes {
+			switch {
+			case x.has("coordinator"):
+				res = append(res, x)
+			case rnd.Intn(4) == 0: // dropped
+			case rnd.Intn(3) == 0:
+				x.Types = []string{[]string{"tree", "fileV2", "file"}[rnd.Intn(3)]}
+				res = append(res, x)
+			default:
+				res = append(res, x)
+			}
+		}
+		for k := rnd.Intn(3); k > 0; k-- {
+			nid := id(100 + k)
+			res = append(res, nodeSpec{Id: nid, Types: []string{"tree"}, Addrs: []string{nid + ":443"}})
+		}
+		c2.Nodes = res
+	case "irrelevant":
+		for i := range c2.Nodes {
+			if !c2.Nodes[i].has("coordinator") && rnd.Intn(2) == 0 {
+				c2.Nodes[i].Types = append(c2.Nodes[i].Types, "namingNode")
+			}
+		}
+		nid := id(200)
+		c2.Nodes = append(c2.Nodes, nodeSpec{Id: nid, Types: []string{"file"}, Addrs: []string{nid + ":443"}})
+	}
+	rnd.Shuffle(len(c2.Nodes), func(i, j int) { c2.Nodes[i], c2.Nodes[j] = c2.Nodes[j], c2.Nodes[i] })
+	return
 }
 
 func TestReplay(t *testing.T) {
